@@ -376,6 +376,29 @@ def check_run(r, name, outdir, radix, sharefmt, files_trace, acc, label):
                                % (label, x["line"], len(x["raw"]), x["pc"] + x["phase"], [r.decode("latin1").strip() for r in rows][:3])))
                     break
                 acc["probes"]["listed_line_blank_code_column"] = acc["probes"].get("listed_line_blank_code_column", 0) + 1
+    # rule 2c: a listed main-file line that only reserves space shows the address at which the reservation starts
+    if lst is not None and not vs:
+        row_addr = {}
+        for ln in lst.split(b"\n"):
+            if b"Symbol Table (* = unused)" in ln:
+                break
+            m = RE_LST.match(ln)
+            if m and ln.startswith(b"   "):
+                row_addr.setdefault(int(m.group(1)), []).append((to_radix(m.group(2).decode("latin1"), radix), m.group(4)[:LISTLINESPACE]))
+        per_line = {}
+        for x in final:
+            if x["file"] == files_trace["name"]:
+                per_line.setdefault(x["line"], []).append(x)
+        for line, xs in per_line.items():
+            if len(xs) == 1 and xs[0]["dp"] and xs[0]["clen"] > 0 and not xs[0]["inmac"] and len(row_addr.get(line, [])) == 1:
+                la, col = row_addr[line][0]
+                if la is None or col.strip():
+                    continue
+                acc["probes"]["reservation_lines_checked"] = acc["probes"].get("reservation_lines_checked", 0) + 1
+                want = (xs[0]["pc"] + xs[0]["phase"]) & 0xFFFFFFFFFFFFFFFF
+                if la not in (want, want & 0xFFFFFFFF):
+                    vs.append(("C19/listing-reservation-address", "%s: line %d reserves %d unit(s) at %x, the listing shows it at %x" % (label, line, xs[0]["clen"], want, la)))
+                    break
     # rule 3n: NoICE line entries and symbol definitions (code segment only)
     noi = r.files.get("%s/%s.noi" % (outdir, name))
     if noi is not None:
